@@ -5,7 +5,7 @@ from .canon import enc
 from . import gen_common as G
 from .gen_c20 import _interleave, _place_faults
 
-GROUPS = ["cycle_mem", "cycle_file", "mixed_cycle", "inspect", "stale_load", "declarative", "foreign_ctx"]
+GROUPS = ["cycle_mem", "cycle_file", "mixed_cycle", "inspect", "stale_load", "declarative", "declarative"]
 SEAM_OPS = {"sc.foreign_ctx", "sc.dump", "sc.load"}
 
 SRC_KINDS = ["voltage_source", "current_source", "ac_voltage_source", "ac_current_source", "rect_voltage_source",
